@@ -332,6 +332,19 @@ def auto_discharge(ctx, b, h):
             if strip_all(ct[2][0]) in (('param', pd), ('deref', ('param', pd))) and strip_all(ct[2][1]) in (('param', ps), ('deref', ('param', ps))):
                 return 'row callback of composite_surface: source and destination rows have equal length (R15.2)'
         return None
+    if kind == 'slice' and b.q.endswith(' as raqote::blitter::Shader>::shade_span') and (detail.endswith('[RangeTo]') or detail.endswith('[Range]')):
+        # dest[..count] / dest[0..count] in a shader: the same bound as dest[i] for i < count (the audited spelling):
+        # count <= dest.len() because the blitters hand over tmp[..] of surface width and count = x2 - x1 (R02.4)
+        rng = ex.get('range')
+        base = ex.get('base')
+        if rng and rng[0] == 'agg' and base is not None:
+            f = dict(rng[4])
+            sb = strip_all(base)
+            while sb[0] in ('deref', 'ref'):
+                sb = strip_all(sb[1])
+            if sb == ('param', 4) and strip_all(f.get('end', ('unknown',))) == ('param', 5) and ('start' not in f or const_val(f['start']) == 0):
+                return 'dest[..count]: count <= dest.len() (tmp is as wide as the surface), as for dest[i], i < count'
+        return None
     if kind == 'slice' and detail.endswith('[RangeFrom]'):
         # base[k..] with a constant k needs len(base) >= k
         rng = ex.get('range')
@@ -459,6 +472,8 @@ TABLE = {
     #  the determinant r*r underflows to 0 for r < ~3.7e-23.  The entry was removed so that the census reports it; see D26.)
     (D + 'push_clip', 'index', 'blitter.buf'): (2, 'else', 'i < width*height (R05.2) <= buffer length width*height+1 (R01.5, R05.5)'),
     (D + 'push_clip', 'index', 'call:last.0.mask.0'): (1, 'else', 'previous masks are full-surface too (R05.5)'),
+    (D + 'push_clip', 'slice', 'blitter.buf[RangeTo]'): (1, 'else', 'the same bound written as a slice: ..width*height (R05.2) <= buffer length width*height+1 (R01.5, R05.5)'),
+    (D + 'push_clip', 'slice', 'call:last.0.mask.0[RangeTo]'): (1, 'else', 'previous masks are full-surface too (R05.5); ..width*height (R05.2)'),
     ('geom::chop_quad_at', 'panic', 'panic'): (1, 'else', 'debug_assert!(0 < t < 1): called on the true edge of valid_unit_divide (R08.2)'),
     ('geom::interp', 'panic', 'panic'): (1, 'range', 'debug_assert!(0 <= t <= 1)'),
     ('geom::valid_unit_divide', 'panic', 'panic'): (1, 'guard', 'debug_assert!(0 <= r < 1): r = numer / denom is computed only after numer >= denom (equality included) returned false', 'unit_divide'),
